@@ -32,6 +32,7 @@ class Numeric:
         self._valid = {}
         self._vals = {}
         self.ignore_write = None     # (block, stmt index): evaluate facts just before this assignment
+        self.use_block = None        # the block at which the current question is asked (lengths are unified relative to it)
 
     # ------------------------------------------------------------------ types
     def ty_of(self, v):
@@ -141,7 +142,14 @@ class Numeric:
                 return (base, off - const_int(b))
         L = len_of(self.du, v)
         if L is not None:
-            return (("len", self.du.canon(L)), 0)
+            place = self.du.canon(L)
+            # a length is a snapshot taken where the call ran (v[3]); it is the container's length at the point of use only if
+            # the container has not been written in between (n = v.len(); v.pop(); v[n - 1])
+            if v[0] != "call" or self._unmodified(place, v[3]):
+                return (("len", place), 0)
+            key = repr(v)
+            self._vals[key] = v
+            return (("val", key), 0)
         if v[0] == "unop" and v[1] == "PtrMetadata":
             tgt = val_ref_target(self.du, v[2])
             if tgt is not None:
@@ -149,6 +157,22 @@ class Numeric:
         key = repr(v)
         self._vals[key] = v
         return (("val", key), 0)
+
+    def _unmodified(self, place, since_block):
+        block = self.use_block
+        if block is None:
+            return False
+        cfg = self.g.cfg
+        after = cfg.reachable_from(since_block)
+        for kb, kidx, kind in self.g._killers(place):
+            if self.ignore_write is not None and (kb, kidx) == self.ignore_write:
+                continue
+            if kb == since_block:
+                # a write in the block that ends with the len() call precedes the call
+                continue
+            if kb in after and (kb == block or block in cfg.reachable_from(kb, removed_nodes=(since_block,))):
+                return False
+        return True
 
     # ------------------------------------------------------------ constraints
     def _fact_valid(self, f, block):
@@ -174,8 +198,29 @@ class Numeric:
         self._valid[key] = bool(ok)
         return bool(ok)
 
+    def _len_places(self, v, out=None, depth=0):
+        if out is None:
+            out = []
+        if depth > 12:
+            return out
+        v = strip_widening(self.fn, v)
+        L = len_of(self.du, v)
+        if L is not None:
+            out.append(self.du.canon(L))
+        elif v[0] == "unop" and v[1] == "PtrMetadata":
+            t = val_ref_target(self.du, v[2])
+            if t is not None:
+                out.append(self.du.canon(t))
+        elif v[0] == "binop":
+            self._len_places(v[2], out, depth + 1); self._len_places(v[3], out, depth + 1)
+        elif v[0] == "call" and _is(v[1], MIN_FNS + MAX_FNS):
+            for a in v[2]:
+                self._len_places(a, out, depth + 1)
+        return out
+
     def constraints_at(self, block):
         """list of (x, y, c): x - y <= c, from facts valid at `block`"""
+        self.use_block = block
         out = []
         seen = set()
         for e, f in self.g.facts():
@@ -251,6 +296,19 @@ class Numeric:
                         b, c = inv
                         nodes.add(b)
                         cons.append((n, b, c))          # x <= b + c: every definition of x is b + c' (c' <= c) or x minus a constant
+                if v[0] == "call" and v[1] and (v[1].endswith("::unwrap") or v[1].endswith("::expect")) and v[2] and v[2][0][0] == "call":
+                    rd = v[2][0]
+                    if rd[1] in ("std::io::Read::read", "<std::io::Cursor<T> as std::io::Read>::read") and len(rd[2]) == 2:
+                        # the Read contract: Ok(n) implies n <= buf.len() (buf must be the whole slice / vector, unmodified since)
+                        tgt = val_ref_target(self.du, rd[2][1])
+                        if tgt is not None:
+                            place = self.du.canon(tgt)
+                            stale = any(kb != rd[3] and kb in self.g.cfg.reachable_from(rd[3]) and block is not None and block in self.g.cfg.reachable_from(kb)
+                                        for kb, kidx, kind in self.g._killers(place) if kind != "mutref" or kb != rd[3])
+                            if not stale:
+                                L = ("len", place)
+                                nodes.add(L)
+                                cons.append((n, L, 0))
                 if v[0] == "call" and _is(v[1], MIN_FNS) and len(v[2]) == 2:
                     for side in v[2]:
                         b, c = self.lin(side)
@@ -264,6 +322,7 @@ class Numeric:
 
     def prove_le(self, a, b, c, block, depth=0):
         """a - b <= c at `block` (a, b value expressions)"""
+        self.use_block = block
         (ba, ca), (bb, cb) = self.lin(a), self.lin(b)
         return self._prove(ba, bb, c - ca + cb, block, depth)
 
@@ -318,12 +377,14 @@ class Numeric:
 
     def prove_le_len(self, v, place, c, block):
         """v - LEN(place) <= c"""
+        self.use_block = block
         base, off = self.lin(v)
         return self._prove(base, ("len", self.du.canon(place)), c - off, block)
 
     # ------------------------------------------------------------- obligations
     def upper_bound(self, v, block):
         """best known upper bound of v at block (interval, tightened by constraints to ZERO)"""
+        self.use_block = block
         iv = self.interval(v)
         hi = iv[1] if iv else None
         base, off = self.lin(v)
@@ -336,6 +397,7 @@ class Numeric:
         return hi
 
     def lower_bound(self, v, block):
+        self.use_block = block
         iv = self.interval(v)
         lo = iv[0] if iv else None
         base, off = self.lin(v)
@@ -366,21 +428,21 @@ def chain_fresh(du, cfg, o, use_block, use_idx=None, depth=0):
         operands = list(rv.get("ops", []))
         if rv.get("place") is not None:
             operands.append({"k": "copy", "l": rv["place"]["l"], "p": rv["place"].get("p", [])})
-    elif d[0] == "call":
-        operands = list(d[3]["args"])
     else:
-        return True
+        return True      # a call result is a snapshot taken when the call ran; it does not read anything later
     for op in operands:
         if op.get("k") not in ("copy", "move"):
             continue
         m = op["l"]
-        if du.unique_def(m) is not None and m > du.fn.nargs:
-            if not chain_fresh(du, cfg, op, use_block, use_idx, depth + 1):
-                return False
-            continue
-        # m is a mutable local (several definitions) or a parameter: is it written between (dblock, didx) and the use?
+        single = du.unique_def(m) is not None and m > du.fn.nargs
+        if single and not chain_fresh(du, cfg, op, use_block, use_idx, depth + 1):
+            return False
+        # is m written between (dblock, didx) and the use?  For a single-definition local only mutation through `&mut` / a field
+        # write counts (a vector that is pushed to or popped after its length was taken); its own definition precedes dblock.
         for bid, idx, pk, kind in du.writes:
             if pk[0] != m:
+                continue
+            if single and kind not in ("mutref",) and not pk[1]:
                 continue
             if bid == dblock and bid == use_block:
                 after_def = didx is None or idx > didx
